@@ -204,7 +204,13 @@ Proof.
               l s0 c (FileM.chain_fuel total) Hinv0 Lc Hnd (fun x Hx => Hokc x (proj1 (Lr x Hx))) Hfuel)
     as (t2 & Hr2 & _).
   assert (fi' = map_free fi (fun n => n + N.of_nat (length l))) as ->.
-  { unfold fs_free_chain in Hr. rewrite Hr2 in Hr. cbn [bind] in Hr. injection Hr as _ <-. reflexivity. }
+  { unfold fs_free_chain in Hr. rewrite Hr2 in Hr. cbn [bind] in Hr. injection Hr as _ <-.
+    (* the checked addition cannot overflow: a latched count is the table's (<= total), the chain has at most total clusters *)
+    apply map_free_opt_add. intros n En. destruct Hfi as [Hcnt _]. rewrite En in Hcnt.
+    pose proof (cnt_le (val_ft ft (store_of g im)) (N.to_nat total) 2) as Hle. unfold count_spec in Hcnt.
+    assert (total + 2 <= 268435447) as Hsm.
+    { destruct Hok as (_ & _ & Hf). fold total in Hf. destruct (ft_of g); cbn [fat_fits] in Hf; lia. }
+    unfold FileM.chain_fuel in Hfuel. unfold u32_max. lia. }
   destruct Hinv' as ((B & S & M & Hb1) & Hout & _).
   pose proof (store_of_img g t' B S M) as Est.
   exists (fs_img t').
